@@ -80,9 +80,10 @@ class Gen:
         d = self.draw
         if depth <= 0 or d(st.integers(0, 2)) == 0:
             k = d(st.integers(0, 4))
-            if k <= 2:
-                return d(st.sampled_from([e for e in env if e not in self.inexact]))
-            if k == 3:
+            cands = [e for e in env if e not in self.inexact]
+            if k <= 2 and cands:
+                return d(st.sampled_from(cands))
+            if k <= 3:
                 return d(st.sampled_from(LITS))
             self.feats.add("named_constant")
             return d(st.sampled_from(["K1", "vhelpers.K2", "Consts.A", "HALF"]))
@@ -160,18 +161,21 @@ class Gen:
         lines: list[str] = []
         env = list(env)
         for _ in range(d(st.integers(0, 2))):
-            kind = d(st.sampled_from(["assign", "assign", "reassign", "tuple", "if", "if"]))
+            kind = d(st.sampled_from(["assign", "assign", "reassign", "reassign", "tuple", "if", "if"]))
             if kind == "assign":
                 n = self.fresh()
                 lines.append(f"{indent}{n} = {self.rhs(env, n)}")
                 env.append(n)
                 self.feats.add("local_assignment")
             elif kind == "reassign":
-                locs = [e for e in env if e.startswith("t")]
+                # locals and (legal in Python) the function's own parameters
+                locs = [e for e in env if e.startswith("t")] + (list(self.params) if d(st.integers(0, 2)) == 0 else [])
                 if locs:
                     n = d(st.sampled_from(locs))
                     lines.append(f"{indent}{n} = {self.rhs(env, n)}")
                     self.feats.add("reassignment")
+                    if n in self.params:
+                        self.feats.add("parameter_reassignment")
             elif kind == "tuple":
                 n1, n2 = self.fresh(), self.fresh()
                 self.inexact.update([n1, n2])
@@ -216,8 +220,8 @@ class Gen:
             want_ret = shape == "ret" or (shape == "mixed" and d(st.booleans()))
             ls, e2, ret = self.block(env, depth, inner, want_ret)
             if not ret:
-                if locs and d(st.booleans()):
-                    tgt = d(st.sampled_from(locs))
+                if (locs or self.params) and d(st.booleans()):
+                    tgt = d(st.sampled_from(locs + (list(self.params) if d(st.integers(0, 2)) == 0 else []) or list(self.params)))
                     ls.append(f"{inner}{tgt} = {self.rhs(e2, tgt)}")
                     self.feats.add("reassignment_in_branch")
                 ls.append(f"{inner}{newname} = {self.rhs(e2, newname)}")
